@@ -139,6 +139,20 @@ def api_variants(R, B, rng):
             data = (b'\x00' if prefix else b'') + enc
             case(f'snake-string-prefix{int(prefix)}', lambda: B.Builder().store_snake_string(text, prefix) if prefix else B.Builder().store_snake_string(text), bits_of_bytes(data[:127]),
                  lambda s: [('load_snake_bytes', s.copy().load_snake_bytes(), data), ('load_snake_string', s.load_snake_string(), data.decode())], {'text': text[:20]})
+    # snake chains up to the deepest legal one (root + 1023 cells of 127 bytes = 130 048 bytes), and bytes-like arguments whose items are wider than a byte
+    import array as _array
+    for nbytes in (127 * 500, 127 * 1000 + 5, 130048):
+        blob = bytes((i * 7 + 3) & 0xFF for i in range(nbytes))
+        case(f'snake-bytes-{nbytes}', lambda blob=blob: B.Builder().store_snake_bytes(blob), bits_of_bytes(blob[:127]),
+             lambda s, blob=blob: [('load_snake_bytes', s.load_snake_bytes(), blob)], {'bytes': nbytes})
+    for code in ('H', 'I', 'Q'):
+        blob = bytes((i * 11 + 1) & 0xFF for i in range(160))
+        arr = _array.array(code)
+        arr.frombytes(blob)
+        case(f'snake-bytes-array-{code}', lambda arr=arr: B.Builder().store_snake_bytes(arr), bits_of_bytes(blob[:127]),
+             lambda s, blob=blob: [('load_snake_bytes', s.load_snake_bytes(), blob)], {'form': f'array {code}'})
+        case(f'snake-bytes-memoryview-cast-{code}', lambda blob=blob, code=code: B.Builder().store_snake_bytes(memoryview(blob).cast(code)), bits_of_bytes(blob[:127]),
+             lambda s, blob=blob: [('load_snake_bytes', s.load_snake_bytes(), blob)], {'form': f'memoryview cast {code}'})
     long_text = 'ж' * 400          # 800 bytes + prefix: crosses several cells
     case('snake-string-prefix1-long', lambda: B.Builder().store_snake_string(long_text, True), bits_of_bytes((b'\x00' + long_text.encode())[:127]),
          lambda s: [('load_snake_string', s.load_snake_string(), '\x00' + long_text)], {})
